@@ -34,9 +34,8 @@ package connect
 //@   tags C18
 //@   requires c != nil
 //@   assigns deref(c)
-//@   nosafety truncation
 //@   ensures forall k int :: {codeText(k)} 0 <= k && k <= 4294967295 && seq(data) == codeText(k) ==> res == nil && deref(c) == k   // label: roundtrip
-//@   ensures res == nil ==> isCodeName(seq(data)) || (|data| >= 5 && seq(data)[:5] == "code_" && isInt10(seq(data)[5:]))             // label: rejects-other-text
+//@   ensures res == nil ==> isCodeName(seq(data)) || (|data| >= 5 && seq(data)[:5] == "code_" && isNum10(seq(data)[5:]) && val10(seq(data)[5:]) <= 4294967295 && deref(c) == val10(seq(data)[5:]))             // label: rejects-other-text-a-number-is-unsigned-fits-32-bits-and-is-the-code-it-denotes
 
 //@ func (Code).MarshalText(c) (res, err)
 //@   tags C18
@@ -1312,6 +1311,10 @@ package connect
 //@     invariant forall i int :: {seq(anys)[i]} 0 <= i && i <= rangeindex ==> seq(anys)[i] == (if typeis(e.details[i], "*anypb.Any") then e.details[i] else anyOf(e.details[i]))
 //@     assigns elems(anys)
 
+// The status message holds the code in an int32 field; a Code is unsigned. The
+// field carries the code's bit pattern (i32), the grpc-status header its value (u32).
+//@ macro i32(x int) int = if x > 2147483647 then x - 4294967296 else x
+//@ macro u32(x int) int = if x < 0 then x + 4294967296 else x
 //@ func grpcStatusFromError(err) (res, e)
 //@   tags C02, C07, C05
 //@   requires err != nil
@@ -1319,7 +1322,7 @@ package connect
 //@   assigns nothing
 //@   ensures e == nil ==> res != nil && fresh(res)
 //@   ensures e == nil ==> res.Code != 0   // label: an-error-never-goes-out-as-the-ok-status-whatever-code-it-carries   // tags: C05, C02
-//@   ensures e == nil && coded(err) && codeOf(err) <= 2147483647 ==> res.Code == (if codeOf(err) == 0 then 2 else codeOf(err)) && (validUTF8(errMessage(asErr(err))) ==> res.Message == errMessage(asErr(err)))   // label: status-carries-code-and-message
+//@   ensures e == nil && coded(err) ==> res.Code == i32(if codeOf(err) == 0 then 2 else codeOf(err)) && (validUTF8(errMessage(asErr(err))) ==> res.Message == errMessage(asErr(err)))   // label: status-carries-code-and-message
 //@   ensures e == nil && !coded(err) ==> res.Code == 2 && (validUTF8(errText(err)) ==> res.Message == errText(err))                     // label: plain-error-is-unknown-with-its-text
 //@   ensures e == nil ==> validUTF8(res.Message)   // label: the-message-on-the-wire-is-valid-utf-8-whatever-the-error-text-quotes   // tags: C07, C05
 //@   ensures e == nil && coded(err) ==> len(res.Details) == len(asErr(err).details) && (forall i int :: {seq(res.Details)[i]} 0 <= i && i < len(asErr(err).details) ==> seq(res.Details)[i] == (if typeis(asErr(err).details[i], "*anypb.Any") then asErr(err).details[i] else anyOf(asErr(err).details[i])))   // label: all-details-carried-in-order
@@ -1338,7 +1341,7 @@ package connect
 //@   assigns mapof(trailer), mapvals(trailer)
 //@   ensures mapdom(trailer, "Grpc-Status") && |mapval(trailer, "Grpc-Status")| == 1 && mapdom(trailer, "Grpc-Message") && |mapval(trailer, "Grpc-Message")| == 1   // label: exactly-one-status-and-message   // tags: C05
 //@   ensures err == nil ==> mapval(trailer, "Grpc-Status")[0] == "0" && mapval(trailer, "Grpc-Message")[0] == ""   // label: success-is-status-zero
-//@   ensures err != nil && callres("grpcStatusFromError", 1, 1) == nil && callres("Codec.Marshal", 1, 1) == nil ==> mapval(trailer, "Grpc-Status")[0] == dec(callres("grpcStatusFromError", 1, 0).Code) && isEnc(mapval(trailer, "Grpc-Message")[0], callres("grpcStatusFromError", 1, 0).Message)   // label: status-and-percent-encoded-message
+//@   ensures err != nil && callres("grpcStatusFromError", 1, 1) == nil && callres("Codec.Marshal", 1, 1) == nil ==> mapval(trailer, "Grpc-Status")[0] == dec(u32(callres("grpcStatusFromError", 1, 0).Code)) && isEnc(mapval(trailer, "Grpc-Message")[0], callres("grpcStatusFromError", 1, 0).Message)   // label: status-and-percent-encoded-message
 //@   ensures err != nil && callres("grpcStatusFromError", 1, 1) == nil && callres("Codec.Marshal", 1, 1) == nil ==> mapdom(trailer, "Grpc-Status-Details-Bin") && mapval(trailer, "Grpc-Status-Details-Bin") == [b64raw(menc(protobuf, mval(callres("grpcStatusFromError", 1, 0))))]   // label: binary-status-always-sent
 //@   ensures err != nil && !(callres("grpcStatusFromError", 1, 1) == nil && callres("Codec.Marshal", 1, 1) == nil) ==> mapval(trailer, "Grpc-Status")[0] == dec(13)   // label: unencodable-error-is-internal
 //@   ensures err != nil && !(callres("grpcStatusFromError", 1, 1) == nil && callres("Codec.Marshal", 1, 1) == nil) ==> !hdom(trailer, "Grpc-Status-Details-Bin")   // label: and-goes-out-without-any-binary-status-whatever-the-metadata-held   // tags: C05, C02
